@@ -18,7 +18,7 @@ RULE = ('stores generated from cell composites (process + flow steps + optional 
         '(with and without an update) and plain variable updates mixed in; non-trivial = >=3 batches applied, >=2 '
         'operation kinds, and a combined update or a second-generation operation; distinct = distinct case spec')
 PLAN = {'quick': {'n': 10000, 'min_cases': 600}, 'thorough': {'n': 100000, 'min_cases': 10000}}
-REQUIRED_ORACLES = ['reissued_update', 'tree_matches_shadow', 'untouched_nodes_keep_identity', 'moved_keeps_identity',
+REQUIRED_ORACLES = ['reported_paths', 'reissued_update', 'tree_matches_shadow', 'untouched_nodes_keep_identity', 'moved_keeps_identity',
                     'add_existing_rejected', 'combined_all_applied', 'delete_by_path']
 ANCHORS = ['vivarium.core.store:Store.apply_update', 'vivarium.core.store:Store.add', 'vivarium.core.store:Store.move',
            'vivarium.core.store:Store.add_node', 'vivarium.core.store:Store.insert', 'vivarium.core.store:Store.generate',
@@ -350,11 +350,25 @@ def run(spec):
         before_nodes = nodes()
         before_procs = procs()
         skeleton = _skel(update)
+        reported = None
         try:
-            store.apply_update(update, dir_store)
+            reported = store.apply_update(update, dir_store)
             raised = None
         except Exception as ex:
             raised = ex
+        if reported is not None and raised is None:
+            # what the store reports to the engine (paths of new processes and steps) names nodes that hold them
+            top = store.top()
+            for plist, what in ((reported[1], 'process'), (reported[2], 'step')):
+                for rpath, inst in plist or []:
+                    try:
+                        node = top.get_path(tuple(rpath))
+                        # (a step handed over among the processes is reported among them: legacy style)
+                        okp = node.value is inst and (what == 'process' or inst.is_step())
+                    except Exception:
+                        okp = False
+                    V.check('reported_paths', okp,
+                            lambda: ('apply_update reported a %s at %r, which is not where the hierarchy holds it' % (what, rpath), ops))
         # the update belongs to the process that returned it (it may hand the same object in again):
         # carrying it out must not consume it
         # (a clause of C08, harvested by C08's check from this workload; not a verdict of C09)
